@@ -7,7 +7,7 @@ import lib
 from props import fsobs
 
 ID = 'C12'
-GEN_FILES = ['T_files_p8', 'T_files_build']
+GEN_FILES = ['T_files_p8', 'T_files_build', 'T_p8scii']
 COQ_PROPERTY = 'theories/Properties/C12.vo'
 COQ_EXTRA = []
 MODEL = ('ExC12', 'c12_main.ml')
@@ -50,7 +50,7 @@ CLAIM = dict(
           "load path with a pattern like ?/../../x. Tie: the SHAPES of the two containment tests and of the require "
           "filter, the regex sources, PICO8_CART_PATHS, DEFAULT_LUA_PATH, split/replace characters are regenerated "
           "from the source and pinned (a reverted fix breaks a pin and the search replays the witness); the path "
-          "functions are compared with posixpath on ~250,000 inputs; the resolution logic with file.from_file / "
+          "functions are compared with posixpath on ~335,000 inputs (incl. unusual HOME values); the resolution logic with file.from_file / "
           "tool.main(build) in a sandbox tree with canary files, incl. the complete probe/open trace of random package "
           "graphs; the Spec-only monitor runs on the recorded accesses."),
     note=("Trusted: Coq kernel+VM, extraction, OCaml glue, the in-process wrappers around builtins.open / "
